@@ -6,6 +6,16 @@ HERE = os.path.dirname(os.path.dirname(os.path.abspath(__file__)))
 
 # id -> (category, technique, level text, level note, design ref)
 CHECKS = {
+ "C01": ("translation_validation",
+         "differential execution (property-based + exhaustive small shapes): interpreter of the typed IR vs an independent parser and evaluator of the emitted HLSL text",
+         "Every expression tree with 1-2 (quick) / 1-3 (thorough) operator nodes over the whole operator table on int, float and mixed int/float/uint/bool operands, and generated whole programs of the executable resource-free subset, are compiled for DirectX and Vulkan HLSL. The typed IR is run by an interpreter (RSSL's semantics) and the emitted text is parsed by an independent C-like parser and run by an evaluator with HLSL's rules (literal typing, usual arithmetic conversions, copy-in/copy-out) on 3 boundary argument vectors per function; return value, out/inout parameters and static globals are compared bit-exactly. 37 000 programs quick, about 1.2 M thorough.",
+         "Per-program validation by execution on sampled argument vectors, not a proof of equivalence. Trusted: harness/src/irsem.rs, ctext.rs, csem.rs and the shared value library vals.rs (which fixes one meaning for operations HLSL leaves undefined). Methods and namespaces are not generated yet.",
+         "DESIGN.md section 3, C01"),
+ "C02": ("translation_validation",
+         "differential execution (property-based + exhaustive small shapes): interpreter of the typed IR vs an independent parser and evaluator of the emitted Metal text under C++ rules",
+         "As C01 for the Metal target: reference parameters alias, calls must match a declared function by arity and tag type, brace initialisation zero-fills, metal:: builtins are mapped by a per-dialect table, implicit parameters for static globals are bound by name and their final values compared with the interpreter's globals, out/inout parameters go through the emitted trampolines. Text that is not meaningful as C++ is a violation. 27 000 programs quick, about 0.8 M thorough.",
+         "Per-program validation by execution on sampled argument vectors. Static globals are initialised by a pipeline entry point that no-pipeline mode does not emit, so their initial values come from the IR. One recorded finding: KF-C02-1 (float %= in Metal).",
+         "DESIGN.md section 3, C02"),
  "C12": ("exploration",
          "property-based testing against a reference C macro expander (hide sets) + metamorphic relations (include pasting, define placement)",
          "Random macro programs (1-6 object- and function-like macros with 0-3 parameters, self- and mutually-referential bodies, ## pastes, nested invocations in arguments, parenthesised commas, invocations spanning lines, redefinitions and #undef between sites) are preprocessed and the resulting token sequence is compared with a reference expander implementing C's rescanning rules with hide sets; include graphs of 2-5 files with and without #pragma once must equal the text with the includes pasted in place; every split of 1-4 defines between API defines and #define lines must give the same tokens. 60 000 cases quick, 1.4 M thorough.",
